@@ -4,7 +4,7 @@
    (VerbatimEnvironment.invoke, verb.invoke/digest), Model/Source.v (Token/EscapeSequence/Macro/bgroup/math/displaymath .source). *)
 From Coq Require Import List NArith Bool Arith.
 Import ListNotations.
-From Verif Require Import Val Catcodes Tokenizer Verbatim Source Verb TokenizerProofs VerbatimProofs SourceProofs.
+From Verif Require Import Val Catcodes Tokenizer Verbatim Source Verb MathParse TokenizerProofs VerbatimProofs SourceProofs MathParseProofs.
 Local Open Scope N_scope.
 
 (* M1: the scan for the end of a verbatim environment is a correct string search, for every input, every pair of non-empty
@@ -93,6 +93,40 @@ Theorem C11_source_tokens_angle_refuted :
   exists n, (forall a, In a (match n with NMacro _ _ _ args _ => args | _ => [] end) -> wf default_table a = true) /\
     forall l, tokenize default_table (src n) = RToks l -> strip_blanks l <> node_toks default_table n.
 Proof. exact print_tokenize_angle_refuted. Qed.
+
+(* P1: the parser Model (Model/MathParse.v: Macro.parse / readArgumentAndSource / readToken / readGrouping / expandTokens and the
+   digest of groups, formulas and environments, for the commands of the formula grammar) keeps every token: for every list of
+   tokens as the tokenizer makes them (canon), every fuel and both modes, if everything that was opened was closed, the
+   nodes it builds stand -- blanks aside -- for exactly the tokens it was given.  No token is dropped, duplicated or
+   reordered by argument reading, blank skipping, nesting or the 'self'-argument bookkeeping, at any depth. *)
+Theorem C11_parse_keeps_tokens :
+  forall (fuel : nat) (mm : bool) (ts : list tok) (nodes : list node),
+  forallb canon ts = true -> parse fuel mm ts = Some (nodes, true) ->
+  flat_map (node_toks default_table) nodes = strip_blanks ts.
+Proof. exact parse_keeps_tokens. Qed.
+
+(* End to end, from the author's tokens to the reconstructed source and back: for every token list ts of a formula that the
+   parser closes and whose nodes are well formed, the source plasTeX reconstructs (src_list of the parsed nodes) tokenizes,
+   under the ordinary codes, to ts again, blanks aside.  The tree is no longer an input of the statement: it is computed
+   from the tokens by the Model of the parser. *)
+Theorem C11_formula_roundtrip :
+  forall (mm : bool) (ts : list tok) (nodes : list node),
+  forallb canon ts = true -> parse_formula mm ts = Some (nodes, true) -> forallb (wf default_table) nodes = true ->
+  flat_map (node_toks default_table) nodes = strip_blanks ts /\
+  exists l, tokenize default_table (src_list nodes) = RToks l /\ strip_blanks l = strip_blanks ts.
+Proof. exact formula_roundtrip. Qed.
+
+(* the parser terminates: the fuel parse_formula gives itself (one more than the number of tokens) suffices for every input *)
+Theorem C11_parse_terminates :
+  forall (mm : bool) (s : list tok), exists nodes ok, parse_formula mm s = Some (nodes, ok).
+Proof. exact parse_formula_total. Qed.
+
+(* non-vacuity: the characters of  $x^{2}_\alpha\frac ab\left(\text{a $y$}\right]\begin{array}{c}1&2\\ 3\end{array}$  tokenize to
+   canonical tokens, the parser closes everything and its nodes are well formed *)
+Example C11_formula_example :
+  exists ts nodes, tokenize default_table example_formula = RToks ts /\ forallb canon ts = true /\
+    parse_formula false ts = Some (nodes, true) /\ forallb (wf default_table) nodes = true /\ (length nodes = 1)%nat.
+Proof. exact formula_example. Qed.
 
 (* non-vacuity *)
 Example C11_verbatim_example :
